@@ -41,8 +41,13 @@ class Result(object):
 def _one(job):
     res, text, path, timeout, tier = job
     vc = res.vc
-    with open(path, "w") as f:
+    # written atomically: obligations with identical text (same hash, same path) are discharged by several threads -- and
+    # by several checker processes -- at once; a solver must never read a file another writer has just truncated
+    import threading
+    tmp = "%s.%d.%d.tmp" % (path, os.getpid(), threading.get_ident())
+    with open(tmp, "w") as f:
         f.write(text)
+    os.replace(tmp, path)
     order = list(ORDER)
     answers = []
     final = None
@@ -57,8 +62,12 @@ def _one(job):
         else:
             res.status = "canary-bad" if ans == "unsat" else "canary-ok"
         return res
-    for idx, name in enumerate(order):
-        ans, dt, _ = run_solver(name, path, timeout if idx == 0 else max(timeout // 2, 5))
+    # schedule: a short attempt with the first solver, then the second one (it decides, within seconds, a class of
+    # quantified queries the first one only times out on), then the first one again with the full budget, then cvc5
+    short = max(timeout // 5, 4)
+    schedule = [(order[0], short), (order[1], max(timeout // 2, 10)), (order[0], timeout), (order[2], max(timeout // 2, 5))]
+    for name, sec in schedule:
+        ans, dt, _ = run_solver(name, path, sec)
         answers.append((name, ans, dt))
         res.time += dt
         if ans == "unsat":
